@@ -392,6 +392,9 @@ def corner_programs():
         # ... reading the current value creates {key: None} when the variable does not exist yet, whether or not anything is then written
         P([("@d1.a.notnone = #x", f"(CAgg (AssignQK {Q(notnone=True)} 1 {ulit('a')} (NHdr 5)))")], rows=S),
         P([("@d2.tot.increase.nocontrib = int(#m)", f"(CAgg (AssignQK {Q(increase=True, nocontrib=True)} 2 {ulit('tot')} (NInt (NHdr 2))))"), ("@d2.b = 1", f"(CAct (Agg (AssignK 2 {ulit('b')} (NLit 1))))")], rows=Z0),
+        # count.d(cond) keeps its two counts under the keys True / False: @d.False reads the count of the lines where the condition failed
+        P([("@v5 = count.d6(gt(#n, 2))", "(CAct (Agg (CountIf 5 6 (BCmp Gt (NHdr 1) (NLit 2)))))"), ("@v7 = @d6.False", f"(CAct (AssignN 7 (NVarK 6 {ulit('False')})))"),
+           ('push("k1", @d6.True)', f"(CAct (PushN 1 (NVarK 6 {ulit('True')})))"), ('push("k2", @d6.False)', f"(CAct (PushN 2 (NVarK 6 {ulit('False')})))")]),
         P([("mod(#n, 2) == 0", "(CMod false 1%nat 2 0)")], rows=M),
         P([("not(above(mod(#n, 2), 0))", "(CMod true 1%nat 2 0)")], rows=M),
         P([("mod(#m, 3) == 1", "(CMod false 2%nat 3 1)"), ("no()", "(CB BNo)")], rows=M, AND=False),
